@@ -4,6 +4,7 @@ pub mod hostile;
 pub mod peersync;
 pub mod query;
 pub mod sampling;
+pub mod txpool;
 
 use std::collections::HashMap;
 
@@ -15,6 +16,7 @@ pub fn run(driver: &str, kv: &HashMap<String, String>) -> i32 {
         "hostile" => hostile::run(kv),
         "difficulty" => difficulty::run(kv),
         "query" => query::run(kv),
+        "txpool" => txpool::run(kv),
         "mine-genesis" => mine_genesis(),
         "selftest-forged" => selftest_forged(),
         _ => {
